@@ -1,6 +1,6 @@
 SPECIFICATION Spec
 CONSTANTS
-  Families = {"A", "B", "C1", "C2"}
+  Families = {"A", "B", "C1", "C2", "E"}
 INVARIANT CacheInDatainfo
 PROPERTY DriverOnlyIfAllowed
 PROPERTY ErrorLeavesNoTrace
